@@ -263,7 +263,8 @@ def run_harness(h, workdir, timeout=600, trace=False):
 
 
 def run_many(hs, workdir, timeout, jobs=None):
-    jobs = jobs or min(len(hs), int(os.environ.get("VERIF_JOBS", "12"))) or 1
+    # CBMC needs 1-5 GB per harness here: 6 in parallel stays well inside a 62 GB machine
+    jobs = jobs or min(len(hs), int(os.environ.get("VERIF_JOBS", "6"))) or 1
     with ThreadPoolExecutor(max_workers=jobs) as ex:
         return list(ex.map(lambda h: run_harness(h, workdir, timeout), hs))
 
